@@ -1117,6 +1117,10 @@ class Process(StateMachine, persistence.Savable, metaclass=ProcessStateMachineMe
             # Already pausing
             return self._pausing
 
+        if self._killing is not None:
+            # Being killed, which takes precedence
+            return False
+
         if self._stepping:
             # Ask the step function to pause by setting this flag and giving the
             # caller back a future
